@@ -29,7 +29,7 @@ Example tie_C08_decay_amplitudes :
 Proof. repeat split; reflexivity. Qed.
 
 Example tie_C08_infidelity :
-  einsum_numeric_infidelity = ["kjj->k"; "ao,bo->abo"; "k,ako->ao"; "k,ako->ao"; "gao,hbo->ghabo"; "k,gako->gao"; "k,gako->gao"]
+  einsum_numeric_infidelity = ["kjj->k"; "ao,bo->abo"; "k,ako->ao"; "k,ako->ao"; "ajj->a"; "gao,hbo->ghabo"; "k,gako->gao"; "k,gako->gao"]
   /\ Src.h_numeric_infidelity = Expected.h_numeric_infidelity
   /\ einsum_basis_Basis_four_element_traces = ["iab,jbc,kcd,lda->ijkl"; "iab,jbc,kcd,lda->ijkl"]
   /\ Src.h_basis_Basis_four_element_traces = Expected.h_basis_Basis_four_element_traces
